@@ -54,6 +54,8 @@ type Scen struct {
 	FakePush    []string         // names of invalid payloads / "tree:<idx>" pushed unsolicited after STATS
 	FakePushTx  bool
 	FakeTxOf    []int            // tree indices of blocks whose (valid) transactions are relayed as TX packets before any block is served
+	FakeFirst   int              // tree index of the block whose statistics are announced at connect; the real ones follow after the pushed blocks (0 = none)
+	SlowStoreMs int              // B's store takes this long for every write transaction
 	FakeStale   int              // tree index of a block whose (older) statistics are announced after the current ones (0 = none)
 	Grow        []int            // blocks A receives (and broadcasts) while B is synchronising
 	Race        bool             // run under the race detector
@@ -140,6 +142,7 @@ func c11Child(treePath, scenPath, outPath string) {
 	var fake *FakePeer
 	B = newLive("B", tree.raws(sc.B))
 	res.B0 = obsJ(B.observe())
+	B.db.delay = time.Duration(sc.SlowStoreMs) * time.Millisecond
 	if sc.Kind != "fake" || len(sc.A) > 0 {
 		A = newLive("A", tree.raws(sc.A))
 		res.A0 = obsJ(A.observe())
@@ -199,6 +202,10 @@ func c11Child(treePath, scenPath, outPath string) {
 		fake = newFakePeer()
 		last := tree.Blocks[sc.FakeChain[len(sc.FakeChain)-1]]
 		fake.Stats = packet.PacketStats{Height: last.Height, CumulativeDiff: uint128.Uint128{Hi: last.CDHi, Lo: last.CDLo}, Hash: last.Hash}
+		if sc.FakeFirst != 0 {
+			fb := tree.Blocks[sc.FakeFirst]
+			fake.First = &packet.PacketStats{Height: fb.Height, CumulativeDiff: uint128.Uint128{Hi: fb.CDHi, Lo: fb.CDLo}, Hash: fb.Hash}
+		}
 		if sc.FakeStale != 0 {
 			sb := tree.Blocks[sc.FakeStale]
 			fake.Stale = &packet.PacketStats{Height: sb.Height, CumulativeDiff: uint128.Uint128{Hi: sb.CDHi, Lo: sb.CDLo}, Hash: sb.Hash}
